@@ -431,6 +431,27 @@ def extract_method(cls, fn, op):
                 clauses.append(clause([".notTried"], ".retryFresh"))
                 i += 1
                 continue
+            # not isinstance(other, K): return super()...
+            if (isinstance(t, ast.UnaryOp) and isinstance(t.op, ast.Not) and isinstance_other(t.operand)):
+                K = isinstance_other(t.operand)
+                expect(K in KINDS and len(st.body) == 1 and not st.orelse, f"{cx.where()}: `if not isinstance(other, {K})` body")
+                a = act_of_simple(st.body[0], cx)
+                expect(a, f"{cx.where()}: `if not isinstance(other, {K})` does not defer to super()")
+                clauses.append(clause([f".notKind .{KINDS[K]}"], a))
+                i += 1
+                continue
+            # isinstance(other, K) and <self|other>.z != 0: return ...
+            if (isinstance(t, ast.BoolOp) and isinstance(t.op, ast.And) and len(t.values) == 2
+                    and isinstance_other(t.values[0]) in KINDS and isinstance(t.values[1], ast.Compare)
+                    and len(t.values[1].ops) == 1 and isinstance(t.values[1].ops[0], ast.NotEq)
+                    and is_const(t.values[1].comparators[0], 0)
+                    and (is_attr(t.values[1].left, "self", "z") or is_attr(t.values[1].left, "other", "z"))):
+                expect(not st.orelse, f"{cx.where()}: else branch on a height guard")
+                g = [f".isKind .{KINDS[isinstance_other(t.values[0])]}",
+                     ".selfElev" if is_attr(t.values[1].left, "self", "z") else ".otherElev"]
+                clauses.append(clause(g, guard_act(st.body, cx)))
+                i += 1
+                continue
             # isinstance(other, K)
             K = isinstance_other(t)
             if K:
@@ -444,6 +465,9 @@ def extract_method(cls, fn, op):
                     i += 1
                     continue
                 inner = strip_height_guards(inner, cx, clauses, [f".isKind .{k}"])
+                if inner and isinstance(inner[0], ast.If) and any(is_attr(x, "self", "z") or is_attr(x, "other", "z")
+                                                                 for x in ast.walk(inner[0].test)):
+                    raise TemplateMismatch(f"{cx.where()}: height test `{ast.unparse(inner[0].test)}` is not one of the known guards")
                 h = classify_handler(inner, cx, other_kind=k)
                 if isinstance(h, tuple) and h[0] == "lift":
                     clauses.append(clause([f".isKind .{k}"], f".liftSelf .{h[1]}"))
@@ -470,10 +494,15 @@ def extract_method(cls, fn, op):
             elif cls == "PointSetRegion" and op == "intersects":
                 v = st.value
                 ok = (isinstance(v, ast.Call) and is_name(v.func, "any") and isinstance(v.args[0], ast.GeneratorExp)
-                      and call_name(v.args[0].elt) == "other.containsPoint"
+                      and call_name(v.args[0].elt) in ("other.containsPoint", "other._trueContainsPoint")
                       and is_attr(v.args[0].generators[0].iter, "self", "points"))
                 expect(ok, f"{cx.where()}: any(other.containsPoint(pt) for pt in self.points) changed")
-                clauses.append(clause([], ".run .ptsAny"))
+                if call_name(v.args[0].elt) == "other._trueContainsPoint":
+                    a0 = v.args[0].elt.args[0]
+                    expect(call_name(a0) == "Vector" and isinstance(a0.args[0], ast.Starred), f"{cx.where()}: argument of _trueContainsPoint")
+                    clauses.append(clause([], ".run .ptsAnyTrue"))
+                else:
+                    clauses.append(clause([], ".run .ptsAny"))
             else:
                 clauses.append(clause([], ".run " + classify_handler([st], cx)))
             expect(i == len(body) - 1, f"{cx.where()}: statements after the final return")
